@@ -202,7 +202,7 @@ def programs(mido, size):
             return bodies, expect_twice
         return make
 
-    def p_queue():
+    def p_queue(batch=False):
         def make():
             from mido.backends._parser_queue import ParserQueue
             q = ParserQueue()
@@ -210,6 +210,21 @@ def programs(mido, size):
                     not isinstance(q._queue, es.CoopQueue):
                 raise es.HarnessLost('ParserQueue holds real primitives')
             sent = []
+
+            def batch_putter(sender, n):
+                # n messages in ONE put_bytes call
+                def body():
+                    data = []
+                    for k in range(n):
+                        data += note(mido, sender, k).bytes()
+                        sent.append((sender, k))
+                    try:
+                        q.put_bytes(data)
+                    except Exception as e:
+                        return [('raised', 'put_bytes', type(e).__name__,
+                                 str(e))]
+                    return [('sent', sender, k) for k in range(n)]
+                return body
 
             def putter(sender):
                 def body():
@@ -226,9 +241,11 @@ def programs(mido, size):
                     return out
                 return body
 
+            total = 3 if batch else 2 * ns
+
             def poller():
                 out = []
-                while len(out) < 2 * ns:
+                while len(out) < total:
                     try:
                         m = q.poll()
                     except Exception as e:
@@ -239,6 +256,9 @@ def programs(mido, size):
                         continue
                     out.append(('got', m.channel, m.note, m.velocity, m.type))
                 return out
+            if batch:
+                return [batch_putter(0, 2), batch_putter(1, 1), poller], \
+                    lambda: {'sent': sent, 'keep': q}
             return [putter(0), putter(1), poller], lambda: {'sent': sent,
                                                             'keep': q}
         return make
@@ -255,6 +275,7 @@ def programs(mido, size):
         'P4-multiport-receive': p_multi(None),
         'P4c-multiport-send': p_multi_send(),
         'P5-parser-queue': p_queue(),
+        'P5b-parser-queue-batch': p_queue(batch=True),
     })
     return progs
 
